@@ -1067,6 +1067,384 @@ def size_of(case):
     return (sum(len(k['fields']) for k in case['classes']), len(case['classes']), len(case['prefix']) + sum(len(b) for b in case['branches']))
 
 
+# ------------------------------------------------------------------------------------------ stream `typevar-fields` (C10)
+# Implementation-only stream, judged by the specification directly (tv_spec below, written from the property text): the model
+# checks every field against a FRESH TypeVar table, and Spec/Conforms.v leaves TypeVar annotations unspecified, so the Coq side
+# has nothing to say here.  Input dimension: type-safe dataclasses whose FIELD annotations mention TypeVars (item: T,
+# items: List[T], Dict[str, T], Optional[T], Tuple[T, T], Tuple[T, ...], Set[T], bound / constrained TypeVars), the same TypeVar
+# objects in several classes, and a HISTORY of operations (constructor / copy_with / deep_copy_with / validate_types) in which
+# different instances use different classes for the same TypeVar.  "iff every field value conforms to its field annotation"
+# speaks about the candidate instance alone: what an earlier instance held must not decide whether a later one is obtained.
+def tvd(i, constraints=(), bound=None):
+    return {'id': i, 'constraints': list(constraints), 'bound': bound, 'contra': False}
+
+
+TV_FREE = [tvd(0), tvd(1)]
+TV_SPECIAL = [tvd(3, bound='int'), tvd(4, constraints=['int', 'str']), tvd(5, bound=['user', [0]])]
+TV_KINDS = ['int', 'str', 'float', 'bytes', 'bool', 'none', 'u0', 'u01', 'u1']
+TV_DECOS = {'shortcut': {'shortcut': True, 'given': {}},
+            'ts': {'shortcut': False, 'given': {'type_safe': True}, 'bare': False},
+            'ts-slots': {'shortcut': False, 'given': {'type_safe': True, 'slots': True}, 'bare': False},
+            'ts-order': {'shortcut': False, 'given': {'type_safe': True, 'order': True}, 'bare': False},
+            'plain': {'shortcut': False, 'given': {}, 'bare': True}}
+TV_CLAUSE = 'an instance is obtained iff every field value conforms (else PedanticTypeCheckException)'
+
+
+def tv_of(a):
+    """the TypeVar descriptors an annotation mentions"""
+    if a[0] == 'tv':
+        return [a[1]]
+    if a[0] == 'union':
+        return [t for x in a[2] for t in tv_of(x)]
+    if a[0] == 'gen':
+        return [t for x in a[3] for t in tv_of(x)]
+    if a[0] == 'tuplevar':
+        return tv_of(a[2])
+    return []
+
+
+def tv_kinds_for(d):
+    """classes of values a TypeVar can stand for"""
+    if d['constraints']:
+        return ['int', 'str']
+    if d['bound'] == 'int':
+        return ['int', 'bool']
+    if d['bound'] is not None:
+        return ['u0', 'u01']
+    return TV_KINDS
+
+
+def tv_scalar(rng, kind):
+    if kind == 'int': return ['int', rng.choice([0, 1, 2, 7, -3, 40])]
+    if kind == 'str': return ['str', rng.choice([[], [97], [111, 110, 101], [98, 99]])]
+    if kind == 'float': return ['float', rng.choice([3, 5, -1])]
+    if kind == 'bytes': return ['bytes', rng.choice([[], [7], [1, 2]])]
+    if kind == 'bool': return ['bool', rng.random() < 0.5]
+    if kind == 'none': return ['none']
+    if kind == 'u0': return ['inst', [0], rng.randrange(1, 9)]
+    if kind == 'u01': return ['inst', [0, 1], rng.randrange(1, 9)]
+    if kind == 'u1': return ['inst', [1], rng.randrange(1, 9)]
+    raise ValueError(kind)
+
+
+def tv_gen_ann(rng, tvs):
+    """a field annotation: mostly one that mentions a TypeVar of the case"""
+    r = rng.random()
+    if r < 0.2:
+        return rng.choice([['cls', 'str'], ['cls', 'int'], ['gen', 'typing', 'List', [['cls', 'int']]], ['cls', ['user', [0]]]])
+    t = ['tv', rng.choice(tvs)]
+    sp = rng.choice(['typing', 'builtin'])
+    r = rng.random()
+    if r < 0.3: return t
+    if r < 0.5: return ['gen', sp, 'List', [t]]
+    if r < 0.58: return ['gen', 'typing', 'Sequence', [t]]
+    if r < 0.66: return ['gen', sp, 'Dict', [['cls', 'str'], t]]
+    if r < 0.74: return ['union', 'typing', [t, ['cls', 'NoneType']]]
+    if r < 0.82: return ['gen', sp, 'Tuple', [t, t]] if rng.random() < 0.6 else ['gen', sp, 'Tuple', [['cls', 'int'], t]]
+    if r < 0.88: return ['tuplevar', sp, t]
+    if r < 0.94: return ['gen', sp, rng.choice(['Set', 'FrozenSet']), [t]]
+    return ['gen', 'typing', 'List', [['gen', sp, 'List', [t]]]]
+
+
+def tv_value(rng, a, kinds):
+    """a value built to conform to annotation a; kinds: TypeVar id -> the class every value matched against it has"""
+    k = a[0]
+    n = lambda: rng.choice([0, 1, 2, 2, 3])
+    if k == 'tv':
+        return tv_scalar(rng, kinds[a[1]['id']])
+    if k == 'cls':
+        return tv_scalar(rng, rng.choice(['u0', 'u01']) if isinstance(a[1], list) else a[1])
+    if k == 'union':
+        return ['none'] if rng.random() < 0.35 else tv_value(rng, a[2][0], kinds)
+    if k == 'tuplevar':
+        return ['tuple', [tv_value(rng, a[2], kinds) for _ in range(n())]]
+    o, args = a[2], a[3]
+    if o == 'Tuple':
+        return ['tuple', [tv_value(rng, x, kinds) for x in args]]
+    if o == 'Dict':
+        keys = rng.sample([[97], [98], [99, 100], []], rng.choice([0, 1, 2, 3]))
+        return ['dict', [[['str', q], tv_value(rng, args[1], kinds)] for q in keys]]
+    elems = [tv_value(rng, args[0], kinds) for _ in range(n())]
+    if o in ('Set', 'FrozenSet'):
+        elems = G.unique([e for e in elems if is_atom(e)])
+        if not distinct_keys(elems):
+            elems = elems[:1]
+        return ['set' if o == 'Set' else 'frozenset', elems]
+    if o == 'Sequence' and rng.random() < 0.4:
+        return ['tuple', elems]
+    return ['list', elems]
+
+
+def tv_bad_value(rng, a, kinds):
+    """a value that does not conform to annotation a whatever the TypeVars stand for (None: every value conforms)"""
+    k = a[0]
+    if k == 'tv':
+        d = a[1]
+        if d['constraints']: return rng.choice([['float', 3], ['none'], ['bytes', [1]]])
+        if d['bound'] == 'int': return rng.choice([['str', [97]], ['float', 3], ['none']])
+        if d['bound'] is not None: return rng.choice([['int', 1], ['inst', [1], 2], ['str', [97]]])
+        return None
+    if k == 'cls':
+        return ['int', 4] if isinstance(a[1], list) else {'str': ['int', 3], 'int': ['str', [51]]}[a[1]]
+    if k == 'union':
+        return tv_bad_value(rng, a[2][0], kinds)
+    good = tv_value(rng, a, kinds)
+    if k == 'tuplevar':
+        return rng.choice([['list', good[1]], ['int', 1]])
+    o, args = a[2], a[3]
+    if o == 'Tuple':
+        return rng.choice([['tuple', good[1][:1]], ['list', good[1]], ['tuple', good[1] + [['int', 1]]]])
+    if o == 'Dict':
+        return rng.choice([['dict', [[['int', 1], tv_value(rng, args[1], kinds)]] + good[1]], ['list', []], ['none']])
+    if o in ('Set', 'FrozenSet'):
+        return rng.choice([['list', good[1]], ['tuple', good[1]], ['frozenset' if o == 'Set' else 'set', good[1]]])
+    if o == 'List':
+        inner_bad = tv_bad_value(rng, args[0], kinds)
+        if inner_bad is not None and rng.random() < 0.5:
+            return ['list', good[1] + [inner_bad]]           # wrong at a deeper position
+        return rng.choice([['tuple', good[1]], ['none'], ['dict', []]])
+    return rng.choice([['int', 1], ['none']])                 # Sequence
+
+
+def tv_spec(a, v, seen):
+    """SPECIFICATION: does value tree v conform to annotation a?  -> True / False; the classes matched against every TypeVar
+    are collected in `seen` (id -> list).  Restricted to the shapes tv_gen_ann produces."""
+    k = a[0]
+    if k == 'cls':
+        return G.is_sub(G.cls_of(v), a[1])
+    if k == 'tv':
+        d, c = a[1], G.cls_of(v)
+        if d['bound'] is not None and not G.is_sub(c, d['bound']):
+            return False
+        if d['constraints'] and c not in d['constraints']:
+            return False
+        seen.setdefault(d['id'], []).append(c)
+        return True
+    if k == 'union':
+        return True if v[0] == 'none' else tv_spec(a[2][0], v, seen)
+    if k == 'tuplevar':
+        return v[0] == 'tuple' and all([tv_spec(a[2], x, seen) for x in v[1]])
+    o, args = a[2], a[3]
+    if o == 'Tuple':
+        return v[0] == 'tuple' and len(v[1]) == len(args) and all([tv_spec(x, y, seen) for x, y in zip(args, v[1])])
+    if o == 'Dict':
+        return v[0] == 'dict' and all([tv_spec(args[0], p, seen) and tv_spec(args[1], q, seen) for p, q in v[1]])
+    kinds = {'List': ('list',), 'Sequence': ('list', 'tuple'), 'Set': ('set',), 'FrozenSet': ('frozenset',)}[o]
+    return v[0] in kinds and all([tv_spec(args[0], x, seen) for x in v[1]])
+
+
+def tv_field_verdict(a, v):
+    """'must' / 'mustnot' / 'unspec' for ONE field: the TypeVar table is the field's own (the property speaks about a field value
+    and its annotation); values of different classes under one TypeVar inside one field are left unspecified here (C07)"""
+    seen = {}
+    if not tv_spec(a, v, seen):
+        return 'mustnot'
+    if any(len({json.dumps(c) for c in cs}) > 1 for cs in seen.values()):
+        return 'unspec'
+    return 'must'
+
+
+def tv_gen_case(rng, tier):
+    tvs = [rng.choice(TV_FREE)]
+    if rng.random() < 0.4:
+        tvs.append(rng.choice(TV_FREE + TV_SPECIAL))
+    case = {'kind': 'tvfields', 'stream': 'typevar-fields', 'scope': 'module', 'ctx': [[n, c, False] for n, c in G.CTX],
+            'paths': PATHS, 'selfcopy': SELFCOPY, 'anns': [], 'classes': [], 'names': {}}
+    nroot = rng.choice([1, 1, 2])
+    next_name = 0
+    for cid in range(nroot + rng.choice([0, 0, 1, 1, 2])):
+        if cid < nroot:
+            base, deco = None, rng.choice(['shortcut', 'shortcut', 'ts', 'ts-slots', 'ts-order'])
+        else:
+            # a subclass of a type-safe class: type-safe itself, plain @frozen_dataclass (adds fields), or undecorated (adds nothing)
+            base, deco = rng.randrange(cid), rng.choice(['shortcut', 'ts', 'plain', 'plain', None, None])
+        c = {'id': cid, 'base': base, 'deco': copy.deepcopy(TV_DECOS[deco]) if deco else None, 'fields': [], 'pi': None}
+        if deco:
+            for _ in range(rng.choice([1, 2, 2, 3]) if base is None else rng.choice([0, 1, 1, 2])):
+                c['fields'].append({'name': next_name, 'tok': len(case['anns']), 'default': None, 'init': True, 'compare': True})
+                next_name += 1
+                case['anns'].append(tv_gen_ann(rng, tvs))
+        case['classes'].append(c)
+    ann_of = {f['name']: case['anns'][f['tok']] for k in case['classes'] for f in k['fields']}
+
+    def kinds():
+        return {d['id']: rng.choice(tv_kinds_for(d)) for d in TV_FREE + TV_SPECIAL}
+    ops, made = [], []                                     # made: indices of constructing operations
+    n_ops = rng.choice([4, 6, 8, 10] if tier == 'quick' else [6, 10, 14, 18])
+    bad_at = rng.randrange(n_ops) if rng.random() < 0.35 else None
+    for i in range(n_ops):
+        r = rng.random()
+        ks = kinds()
+        if not made or r < 0.45:
+            c = rng.randrange(len(case['classes']))
+            names = [f['name'] for f in merged_fields(case, c)]
+            op = ['ctor', c, [[n, tv_value(rng, ann_of[n], ks)] for n in names]]
+            made.append(i)
+        elif r < 0.9:
+            src = rng.choice(made)
+            c = tv_op_class(ops, src)
+            names = [f['name'] for f in merged_fields(case, c)]
+            S = [n for n in names if rng.random() < 0.5]
+            op = ['copy' if rng.random() < 0.5 else 'deep', src, [[n, tv_value(rng, ann_of[n], ks)] for n in S]]
+            made.append(i)
+        else:
+            op = ['validate', rng.choice(made)]
+        if i == bad_at and op[0] != 'validate' and op[2]:
+            j = rng.randrange(len(op[2]))
+            b = tv_bad_value(rng, ann_of[op[2][j][0]], ks)
+            if b is not None:
+                op[2][j][1] = b
+        ops.append(op)
+    case['ops'] = ops
+    return case
+
+
+def tv_op_class(ops, i):
+    """the class of the instance operation i produces"""
+    while ops[i][0] != 'ctor':
+        i = ops[i][1]
+    return ops[i][1]
+
+
+def tv_candidate(ops, i):
+    """the field values (name -> tree) of the instance operation i produces / validates"""
+    op = ops[i]
+    if op[0] == 'ctor':
+        return dict((n, v) for n, v in op[2])
+    if op[0] == 'validate':
+        return tv_candidate(ops, op[1])
+    vals = tv_candidate(ops, op[1])
+    vals.update(dict((n, v) for n, v in op[2]))
+    return vals
+
+
+def tv_judge(case, w):
+    """-> (problems, violations): implementation outcome of every operation against the specification's verdict"""
+    if w is None or 'tv' not in w:
+        return [{'what': f'implementation worker failed on a typevar-fields case: {json.dumps(w)[:300]}'}], []
+    ops, res = case['ops'], w['tv']
+    if len(res) != len(ops):
+        return [{'what': f'{len(ops)} operations, {len(res)} observations'}], []
+    ann_of = {f['name']: case['anns'][f['tok']] for k in case['classes'] for f in k['fields']}
+    out = []
+    for i, (op, r) in enumerate(zip(ops, res)):
+        code = r[0]
+        if code == 98:
+            continue                                       # no receiver (an earlier operation was refused and reported)
+        try:
+            cand = tv_candidate(ops, i)
+            cls = tv_op_class(ops, i if op[0] != 'validate' else op[1])
+            fields = merged_fields(case, cls)
+            verd = [tv_field_verdict(ann_of[f['name']], cand[f['name']]) for f in fields]
+        except Exception as ex:                            # a judge never raises
+            out.append({'where': i, 'op': op, 'clause': f'judge error {type(ex).__name__}', 'outcome': code, 'cls': None, 'verdicts': []})
+            continue
+        want = 'reject' if 'mustnot' in verd else ('accept' if all(x == 'must' for x in verd) else 'any')
+        if (want == 'accept' and code != 0) or (want == 'reject' and code != 1):
+            clause = TV_CLAUSE if op[0] != 'validate' else 'validate_types raises iff some field does not conform'
+            out.append({'where': i, 'op': op, 'clause': clause, 'outcome': code, 'exception': r[1], 'cls': cls, 'verdicts': verd,
+                        'want': want, 'path': op[0],
+                        'fields': [[f['name'], case['anns'][f['tok']], cand[f['name']]] for f in fields]})
+    return [], out
+
+
+def tv_cut(case, i):
+    """the history up to and including operation i"""
+    c = copy.deepcopy(case)
+    c['ops'] = c['ops'][:i + 1]
+    return c
+
+
+def tv_without(case, j):
+    """the case without operation j (None if a later operation uses its instance)"""
+    ops = case['ops']
+    if any(op[0] != 'ctor' and op[1] == j for op in ops[j + 1:]):
+        return None
+    c = copy.deepcopy(case)
+    new = []
+    for k, op in enumerate(c['ops']):
+        if k == j:
+            continue
+        if op[0] != 'ctor' and op[1] > j:
+            op[1] -= 1
+        new.append(op)
+    c['ops'] = new
+    return c
+
+
+def tv_stream(ck, tier, replay, hist):
+    """generate, run, judge, shrink and report the typevar-fields stream (C10 only)"""
+    if replay is not None:
+        cases = [replay['case']] if replay['case'].get('kind') == 'tvfields' else []
+    else:
+        cases = [tv_gen_case(ck.rng, tier) for _ in range((150 if tier == 'quick' else 1500) * ck.scale())]
+    if not cases:
+        return
+    impl = ck.run_impl('w_dataclass', cases, timeout=900)
+    problems, found = [], []
+    cov = {'cases': len(cases), 'operations': 0, 'outcomes': {}, 'verdicts': {}, 'annotations': {}, 'subclass_kinds': {}}
+
+    def bump(d, k):
+        d[str(k)] = d.get(str(k), 0) + 1
+    for c, w in zip(cases, impl):
+        key = hashlib.sha256(json.dumps([c['classes'], c['anns'], c['ops']], sort_keys=True).encode()).hexdigest()
+        ck.note_case(key, nontrivial=len(c['ops']) >= 2)
+        for a in c['anns']:
+            bump(cov['annotations'], a[0] if a[0] != 'gen' else a[2])
+        for k in c['classes']:
+            if k['base'] is not None:
+                bump(cov['subclass_kinds'], 'undecorated' if k['deco'] is None else
+                     ('type-safe' if opt_of(k, 'type_safe', False) else 'plain @frozen_dataclass'))
+        pr, vs = tv_judge(c, w)
+        problems += pr
+        if w is not None and 'tv' in w:
+            cov['operations'] += len(w['tv'])
+            for op, r in zip(c['ops'], w['tv']):
+                bump(cov['outcomes'], f'{op[0]}:{r[0]}')
+        if not pr and not vs:
+            ck.traces_validated += 1
+        for v in vs:
+            found.append((c, v))
+    found.sort(key=lambda cv: (cv[1]['where'], len(cv[0]['anns']), len(cv[0]['classes'])))
+
+    def alone(c, clause):
+        """does the last operation of case c still violate the clause when c is run alone in a fresh worker?"""
+        r = ck.run_impl('w_dataclass', [c], timeout=300)
+        _, vs = tv_judge(c, r[0])
+        return next((v for v in vs if v['where'] == len(c['ops']) - 1 and v['clause'] == clause), None)
+    reported = []
+    tried, done = {}, set()                                # per clause: a few attempts until one occurrence reproduces alone
+    for c, v in found:
+        payload, vv, ok = c, v, False
+        if replay is None and tried.get(v['clause'], 0) < 4 and v['clause'] not in done:
+            tried[v['clause']] = tried.get(v['clause'], 0) + 1
+            cut = tv_cut(c, v['where'])
+            got = alone(cut, v['clause'])
+            if got is not None:
+                payload, vv, ok = cut, got, True
+                done.add(v['clause'])
+                j = len(payload['ops']) - 2
+                budget = 12
+                while j >= 0 and budget > 0:               # greedy: drop earlier operations the failure does not need
+                    budget -= 1
+                    smaller = tv_without(payload, j)
+                    got = alone(smaller, v['clause']) if smaller is not None else None
+                    if got is not None:
+                        payload, vv = smaller, got
+                    j -= 1
+        reported.append((payload, vv, ok))
+    reported.sort(key=lambda t: (not t[2], len(t[0]['ops'])))
+    for payload, v, ok in reported:
+        hist_txt = f'after {len(payload["ops"]) - 1} earlier operation(s) on the same classes' if len(payload['ops']) > 1 else 'first operation'
+        ck.violation(f'TypeVar in a field annotation: {v["clause"]} [typevar-fields: {v["op"][0]} on class K{v["cls"]}, {hist_txt}: specification {v.get("want")}, '
+                     f'outcome {v["outcome"]} ({v.get("exception")})]', payload, stream='typevar-fields',
+                     extra={'violation': v, 'reproduces_alone': ok})
+    ck.oblige('implementation:typevar-fields', 'correspondence', not problems,
+              json.dumps(problems[0])[:600] if problems else f'{len(cases)} histories ran')
+    hist['typevar_fields'] = cov
+
+
+
 # ------------------------------------------------------------------------------------------ driver
 def evaluate(ck, cases):
     impl = ck.run_impl('w_dataclass', cases, timeout=900)
@@ -1100,7 +1478,7 @@ def run(pid, tier, seed, replay=None):
     ck.replay_known_findings(still_fails)
 
     if replay is not None:
-        cases = [replay['case']]
+        cases = [replay['case']] if replay['case'].get('kind') != 'tvfields' else []
     else:
         n = (500 if tier == "quick" else 4000) * ck.scale()
         cases = []
@@ -1195,6 +1573,8 @@ def run(pid, tier, seed, replay=None):
               json.dumps(disagreements[0])[:1800] if disagreements else f'{ck.traces_validated} cases ({n_ops} operations) agree')
     floor_ok = replay is not None or (len(ck.nontrivial) >= 0.5 * len(cases))
     ck.oblige('generator:non-trivial-share', 'correspondence', floor_ok, f'{len(ck.nontrivial)} of {len(cases)} cases are non-trivial')
+    if pid == 'C10':
+        tv_stream(ck, tier, replay, hist)
     ck.coverage.update(hist)
     ck.coverage.update({'cases': len(cases), 'operations': n_ops, 'disagreements': len(disagreements),
                         'property_failures_before_known_findings': len(found)})
